@@ -5,7 +5,7 @@ import ShVerif.Proofs.C33
 
   `Arr`  = the Go representation (`Variable.List`, `Variable.Indexes`; `none` = nil = dense),
   `Var`  = the fields of `expand.Variable` the array code touches, `applyOp` = one statement,
-  `SMap` = the specification: a finite map Int ⇀ Str as a strictly sorted association list with
+  `SMap` = a finite map Int ⇀ Str as a strictly sorted association list; `SVar` = map + unset/scalar/array tag, with
            bash's semantics of every operation (`specOp`), `Arr.abs`/`Var.abs` the abstraction.
   Helper lemmas: ShVerif/Proofs/C33.lean.
 -/
@@ -161,61 +161,29 @@ theorem WF_run (ops : List Op) : ∃ v, runOps Var.zero ops = .ok v ∧ v.WF :=
   let ⟨v', e, w, _⟩ := runOps_spec ops Var.zero Var.WF.zero_var
   ⟨v', e, w⟩
 
-/-- One operation outside the recorded divergence is the bash operation on the map. -/
-theorem op_refine (v : Var) (op : Op) (h : v.WF) (ok : opOK v op = true) :
+/-- Every operation is the bash operation on the abstract variable (map + unset/scalar/array
+    tag), with no side condition. -/
+theorem op_refine (v : Var) (op : Op) (h : v.WF) :
     ∃ v', applyOp v op = .ok v' ∧ v'.WF ∧ v'.abs = specOp v.abs op :=
-  let ⟨v', e, w, ab⟩ := applyOp_spec v op h
-  ⟨v', e, w, ab ok⟩
+  applyOp_spec v op h
 
-/-- The full statement of the property on the model: for EVERY operation sequence, running the
-    code's operations and abstracting = running bash's operations on the map.  It is false of the
-    code as it stands (`elem_append_counterexample` below), so it is kept as a statement. -/
-def ops_refine_statement : Prop :=
-  ∀ ops : List Op, ∃ v, runOps Var.zero ops = .ok v ∧ v.abs = specRun [] ops
-
-/-- What holds: every sequence that stays outside the one recorded divergence (`runOK`, a
-    decidable condition evaluated along the run: `a[i]+=s` only on an unset variable, and no
-    negative `unset 's[-n]'` on a scalar) refines the map specification — by induction over the
-    sequence, from any well-formed variable. -/
-theorem ops_refine_partial_from (v : Var) (h : v.WF) (ops : List Op) (ok : runOK v ops = true) :
+/-- From any well-formed variable: running the code's operations and abstracting = running
+    bash's operations on the abstraction — by induction over the sequence. -/
+theorem ops_refine_from (v : Var) (h : v.WF) (ops : List Op) :
     ∃ v', runOps v ops = .ok v' ∧ v'.WF ∧ v'.abs = specRun v.abs ops :=
-  let ⟨v', e, w, ab⟩ := runOps_spec ops v h
-  ⟨v', e, w, ab ok⟩
+  runOps_spec ops v h
 
-theorem ops_refine_partial (ops : List Op) (ok : runOK Var.zero ops = true) :
-    ∃ v, runOps Var.zero ops = .ok v ∧ v.WF ∧ v.abs = specRun [] ops :=
-  ops_refine_partial_from Var.zero Var.WF.zero_var ops ok
+/-- The property, at full strength: for EVERY operation sequence (element and whole-array
+    assignment, `+=` of arrays, strings and elements, explicit `[i]=` resetting the counter,
+    negative and out-of-range subscripts, unset of elements and of the variable) starting from an
+    unset variable, the code never panics, keeps the representation invariant, and the array it
+    ends with is the one bash's semantics gives. -/
+theorem ops_refine (ops : List Op) :
+    ∃ v, runOps Var.zero ops = .ok v ∧ v.WF ∧ v.abs = specRun SVar.unset ops :=
+  ops_refine_from Var.zero Var.WF.zero_var ops
 
-def isAppElem : Op → Bool
-  | .appElem _ _ => true
-  | _ => false
-
-def isNegUnset : Op → Bool
-  | .unsetElem i => decide (i < 0)
-  | _ => false
-
-theorem runOK_of_syntactic (ops : List Op) (h1 : ops.all (fun o => !isAppElem o) = true)
-    (h2 : ops.all (fun o => !isNegUnset o) = true) : ∀ v, v.WF → runOK v ops = true := by
-  induction ops with
-  | nil => intro v _; rfl
-  | cons op ops ih =>
-    intro v h
-    simp only [List.all_cons, Bool.and_eq_true] at h1 h2
-    obtain ⟨v', e, w, _⟩ := applyOp_spec v op h
-    simp only [runOK, e, Bool.and_eq_true]
-    refine ⟨?_, ih h1.2 h2.2 v' w⟩
-    cases op <;> simp [opOK, isAppElem, isNegUnset] at h1 h2 ⊢
-    omega
-
-/-- A purely syntactic sufficient condition: a sequence without `a[i]+=s` and without negative
-    `unset` subscripts (whole-array and element assignment with negative subscripts, `+=`, literals
-    with out-of-range subscripts, non-negative unsets, `unset a` — all included) refines the map. -/
-theorem ops_refine_syntactic (ops : List Op) (h1 : ops.all (fun o => !isAppElem o) = true)
-    (h2 : ops.all (fun o => !isNegUnset o) = true) :
-    ∃ v, runOps Var.zero ops = .ok v ∧ v.WF ∧ v.abs = specRun [] ops :=
-  ops_refine_partial ops (runOK_of_syntactic ops h1 h2 Var.zero Var.WF.zero_var)
-
-/-! ### The remaining divergence (replayed on the Go code and on bash by the harness) -/
+/-! ### Repaired by `fix:` commits 1543c4b, 52fb9f0, 4e7d138 (witnesses in corpus/C33-fixed.txt):
+    the model of the current code gives bash's answer on the former counter-examples -/
 
 def bX : Str := [120]
 def bY : Str := [121]
@@ -223,44 +191,32 @@ def bZ : Str := [122]
 def bQ : Str := [113]
 def bR : Str := [114]
 
-/-- `a=(x y); a[1]+=z`: the code yields `(x "")` (the variable's `Str` is stored at index 1),
-    bash `(x yz)`. -/
-theorem elem_append_counterexample :
+/-- `a=(x y); a[1]+=z` is `(x yz)`; on a sparse array `a=([3]=x); a[3]+=z; a[-1]+=y; a[1]+=q`. -/
+theorem elem_append_fixed :
     runOps Var.zero [.assign [.plain bX, .plain bY], .appElem 1 bZ]
-      = .ok ⟨.indexed, true, [], ⟨[bX, []], none⟩⟩ ∧
-    specRun [] [.assign [.plain bX, .plain bY], .appElem 1 bZ] = [(0, bX), (1, bY ++ bZ)] := by
+      = .ok ⟨.indexed, true, [], ⟨[bX, bY ++ bZ], none⟩⟩ ∧
+    runOps Var.zero [.assign [.at 3 bX], .appElem 3 bZ, .appElem (-1) bY, .appElem 1 bQ]
+      = .ok ⟨.indexed, true, [], ⟨[bQ, bX ++ bZ ++ bY], some [1, 3]⟩⟩ := by
   decide
-
-theorem ops_refine_statement_false : ¬ ops_refine_statement := by
-  intro h
-  obtain ⟨v, e, ab⟩ := h [.assign [.plain bX, .plain bY], .appElem 1 bZ]
-  rw [elem_append_counterexample.1] at e
-  cases e
-  rw [elem_append_counterexample.2] at ab
-  revert ab
-  decide
-
-/-! ### Repaired by `fix:` commits 1543c4b and 52fb9f0 (witnesses in corpus/C33-fixed.txt) -/
 
 /-- `a=(x y [-5]=q r)`: the bad subscript only skips its element: `(x y r)`, as in bash. -/
 theorem literal_bad_subscript_fixed :
     runOps Var.zero [.assign [.plain bX, .plain bY, .at (-5) bQ, .plain bR]]
       = .ok ⟨.indexed, true, [], ⟨[bX, bY, bR], none⟩⟩ ∧
-    specRun [] [.assign [.plain bX, .plain bY, .at (-5) bQ, .plain bR]]
-      = [(0, bX), (1, bY), (2, bR)] := by
+    specRun SVar.unset [.assign [.plain bX, .plain bY, .at (-5) bQ, .plain bR]]
+      = ⟨.indexed, [(0, bX), (1, bY), (2, bR)]⟩ := by
   decide
 
 /-- `a[0]=x; unset a`: an array created by an element assignment `IsSet()` and can be unset. -/
 theorem unset_after_elem_assign_fixed :
     runOps Var.zero [.setElem 0 bX, .unsetAll] = .ok Var.zero ∧
-    specRun [] [.setElem 0 bX, .unsetAll] = [] := by
+    specRun SVar.unset [.setElem 0 bX, .unsetAll] = SVar.unset := by
   decide
 
 /-! ### Non-vacuity -/
 
 /-- A run through dense → sparse → dense representations with negative subscripts, an explicit
-    `[i]=` resetting the counter, `+=`, and unsets, satisfying the hypothesis of
-    `ops_refine_partial`. -/
+    `[i]=` resetting the counter, an out-of-range subscript, `+=` of all three kinds, unsets. -/
 def demoOps : List Op :=
   [.assign [.plain bX, .at 5 bY, .plain bZ],   -- a=(x [5]=y z)        {0:x 5:y 6:z}
    .setElem (-1) bQ,                           -- a[-1]=q              {0:x 5:y 6:q}
@@ -268,11 +224,15 @@ def demoOps : List Op :=
    .unsetElem (-2),                            -- unset 'a[-2]'        {0:z 5:y 7:r}
    .appStr bX,                                 -- a+=x                 {0:zx 5:y 7:r}
    .unsetElem 5, .unsetElem 7,                 -- back to dense        {0:zx}
-   .setStr bY, .setElem 1 bQ]                  -- a=y; a[1]=q          {0:y 1:q}
+   .setStr bY, .setElem 1 bQ,                  -- a=y; a[1]=q          {0:y 1:q}
+   .appElem (-1) bR, .appElem 4 bZ]            -- a[-1]+=r; a[4]+=z    {0:y 1:qr 4:z}
 
-example : runOK Var.zero demoOps = true := by decide
-example : runOps Var.zero demoOps = .ok ⟨.indexed, true, [], ⟨[bY, bQ], none⟩⟩ := by decide
-example : specRun [] demoOps = [(0, bY), (1, bQ)] := by decide
+example : runOps Var.zero demoOps
+    = .ok ⟨.indexed, true, [], ⟨[bY, bQ ++ bR, bZ], some [0, 1, 4]⟩⟩ := by decide
+example : specRun SVar.unset demoOps = ⟨.indexed, [(0, bY), (1, bQ ++ bR), (4, bZ)]⟩ := by decide
+/-- Scalars: `s=x; s+=y; unset 's[-1]'` (refused, like bash); `unset 's[0]'` unsets. -/
+example : specRun SVar.unset [.setStr bX, .appStr bY, .unsetElem (-1)] = ⟨.str, [(0, bX ++ bY)]⟩ := by decide
+example : runOps Var.zero [.setStr bX, .appStr bY, .unsetElem (-1), .unsetElem 0] = .ok Var.zero := by decide
 example : runOps Var.zero (demoOps.take 4)
     = .ok ⟨.indexed, true, [], ⟨[bZ, bY, bR], some [0, 5, 7]⟩⟩ := by decide
 /-- A scalar becomes a one-element array: `s=x; s+=(y)`. -/
